@@ -130,7 +130,7 @@ _VER_MSG = ("postcondition not satisfied", "precondition not satisfied", "assert
             "unable to prove assertion safety condition", "assertion not satisfied", "index out of bounds", "cannot show invariant holds",
             "trigger", "Resource limit (rlimit) exceeded", "while loop: not all errors may have been reported", "possible truncation",
             "constructed value may fail to meet its declared type invariant", "split", "failed this", "could not show termination",
-            "function body check: not all errors may have been reported", "bitvector", "nonlinear", "assert_by", "possible")
+            "function body check: not all errors may have been reported", "bitvector", "nonlinear", "assert_by", "possible", "unable to prove")
 
 
 def is_verification_message(msg):
